@@ -62,6 +62,12 @@ pub struct Scenario {
     /// copy of the null device: it exists, it is no regular file, reading it yields nothing
     #[serde(default)]
     pub devices: Vec<String>,
+    /// files (and with them their directories) that are not there when the build starts and
+    /// appear - put there by someone else - when the parser is about to take its k-th line:
+    /// (files, k). If no lookup of one of their names happened before that moment, the build
+    /// ends as it ends with the files there from the start.
+    #[serde(default)]
+    pub appear: Option<(Vec<String>, u64)>,
     pub intent: String,
     pub config: String,
 }
@@ -611,7 +617,7 @@ pub fn scenario_with(seed: u64, g: u64, layout: &Layout) -> Scenario {
     }
     // device nodes only on a disk the tree has for itself
     let devices: Vec<String> = if layout.cwd.is_none() { tg.devices.iter().map(|i| format!("{}/{}", tg.files[*i].0, tg.files[*i].1)).filter(|p| files.get(p).map(|t| t.trim().is_empty()).unwrap_or(false) && !symlinks.contains_key(p)).collect() } else { vec![] };
-    let cfgs = ["free", "twice", "missing", "enum", "enum", "enum", "pair", "cap", "nonutf8", "enum", "twice"];
+    let cfgs = ["free", "twice", "missing", "enum", "enum", "enum", "pair", "cap", "nonutf8", "enum", "twice", "appear"];
     let config = cfgs[tg.r.usize(cfgs.len())].to_string();
     let sc = Scenario {
         engine: "inctree".into(),
@@ -630,6 +636,7 @@ pub fn scenario_with(seed: u64, g: u64, layout: &Layout) -> Scenario {
         then_remove: vec![],
         symlinks,
         devices,
+        appear: None,
         intent: prog.intent,
         config,
     };
@@ -748,6 +755,81 @@ pub fn run_tree(disk: &Disk, sc: &Scenario, budget: u64) -> Result<TreeRun, Stri
     st.budget = budget;
     let run = run_simulated(st, move || avra_lib::builder::build_file(main, paths).map_err(|e| e.to_string()));
     Ok(TreeRun { outcome: Outcome::from(run.result), state: run.state })
+}
+
+// ---- a change of the world in the middle of a build ---------------------------------------------
+static LINE_EVENTS: std::sync::atomic::AtomicU64 = std::sync::atomic::AtomicU64::new(0);
+static CHANGE_AT: std::sync::atomic::AtomicU64 = std::sync::atomic::AtomicU64::new(0);
+static CHANGE_TRACE_POS: std::sync::atomic::AtomicUsize = std::sync::atomic::AtomicUsize::new(usize::MAX);
+static CHANGE_WRITES: std::sync::Mutex<Vec<(PathBuf, Vec<u8>)>> = std::sync::Mutex::new(Vec::new());
+
+/// Sink for the scheduling points of /repo (runs outside the simulation): site 7 is "the parser
+/// is about to take its next line".
+fn line_sink(site: u32) {
+    use std::sync::atomic::Ordering::SeqCst;
+    if site != 7 {
+        return;
+    }
+    let n = LINE_EVENTS.fetch_add(1, SeqCst) + 1;
+    if n == CHANGE_AT.load(SeqCst) {
+        for (p, t) in CHANGE_WRITES.lock().unwrap_or_else(|e| e.into_inner()).iter() {
+            if let Some(d) = p.parent() {
+                let _ = std::fs::create_dir_all(d);
+            }
+            let _ = std::fs::write(p, t);
+        }
+        let pos = crate::simlibc::with_state(|st| st.trace.len()).unwrap_or(0);
+        CHANGE_TRACE_POS.store(pos, SeqCst);
+    }
+}
+
+pub struct AppearRun {
+    pub run: TreeRun,
+    /// line events seen during the build
+    pub line_events: u64,
+    /// length of the trace when the files appeared (None: the build ended before)
+    pub change_pos: Option<usize>,
+}
+
+/// Build with the files of `sc.appear` absent until line event k (k = 0: never, they stay absent).
+pub fn run_tree_appear(disk: &Disk, sc: &Scenario, files: &[String], k: u64) -> Result<AppearRun, String> {
+    use std::sync::atomic::Ordering::SeqCst;
+    let mut start = sc.clone();
+    start.appear = None;
+    let rs = disk.root_str();
+    let mut writes = vec![];
+    for f in files {
+        if let Some(t) = start.files.remove(f) {
+            writes.push((disk.root.join(pb(f)), t.replace("$R", &rs).into_bytes()));
+        }
+    }
+    disk.materialise(&start)?;
+    *CHANGE_WRITES.lock().unwrap_or_else(|e| e.into_inner()) = writes;
+    LINE_EVENTS.store(0, SeqCst);
+    CHANGE_AT.store(k, SeqCst);
+    CHANGE_TRACE_POS.store(usize::MAX, SeqCst);
+    crate::sched::HOOK_SINK.store(line_sink as fn(u32) as usize, SeqCst);
+    let run = run_tree(disk, &start, u64::MAX);
+    crate::sched::HOOK_SINK.store(0, SeqCst);
+    let pos = CHANGE_TRACE_POS.load(SeqCst);
+    Ok(AppearRun { run: run?, line_events: LINE_EVENTS.load(SeqCst), change_pos: if pos == usize::MAX { None } else { Some(pos) } })
+}
+
+/// The oracle for an appearing file: see `Scenario::appear`.
+pub fn judge_appear(sc: &Scenario, files: &[String], a: &AppearRun, full: &Outcome, seed: u64) -> Option<Violation> {
+    let pos = a.change_pos?;
+    let names: BTreeSet<&str> = files.iter().map(|f| basename(f)).collect();
+    let looked_before = a.run.state.trace[..pos.min(a.run.state.trace.len())].iter().any(|e| matches!(e.call, Call::Stat | Call::Open) && names.contains(basename(&e.path)));
+    if looked_before || &a.run.outcome == full {
+        return None;
+    }
+    Some(mk_violation(
+        sc,
+        "file-that-appeared-before-its-include-is-not-found",
+        "files that are put into an .includepath directory before anything looked for them are found like files that were there from the start (the build ends as it ends with them in place)",
+        json!({"appearing": files, "trace_length_when_they_appeared": pos, "with_the_files_appearing": a.run.outcome.short(), "with_the_files_there_from_the_start": full.short(), "trace_tail": trace_tail(&a.run.state.trace, 16)}),
+        seed,
+    ))
 }
 
 /// Two builds of the same arguments by one caller thread, the tree edited in between.
@@ -1544,6 +1626,60 @@ pub fn worker(cfg: &WorkerCfg, emit: &mut dyn FnMut(Violation)) -> Stats {
                 f.read_cap = [1usize, 3, 64][r.usize(3)];
                 digest ^= run_faulted(&mut cx, &f, &base, seed, g);
             }
+            "appear" => {
+                // the files of one .includepath directory are put there by someone else while
+                // the build is under way
+                let ipdirs: BTreeSet<String> = sc
+                    .edges
+                    .iter()
+                    .filter(|e| e.2.starts_with('i') || e.2.starts_with('I'))
+                    .filter_map(|e| {
+                        let comps: Vec<&str> = e.1.split('/').collect();
+                        comps.iter().rposition(|c| c.starts_with("ip") && c[2..].trim_start_matches("sub").chars().all(|d| d.is_ascii_digit())).map(|i| comps[..=i].join("/"))
+                    })
+                    .collect();
+                let ipdirs: Vec<String> = ipdirs.into_iter().collect();
+                if !ipdirs.is_empty() && base.flat.ambiguous.is_empty() && sc.symlinks.is_empty() {
+                    let d = ipdirs[r.usize(ipdirs.len())].clone();
+                    let pre = format!("{}/", d);
+                    let files: Vec<String> = sc.files.keys().filter(|k| k.starts_with(&pre) && !sc.devices.contains(*k)).cloned().collect();
+                    if !files.is_empty() {
+                        // how many line events there are: a run in which the files never appear
+                        // would not tell (it ends early), so count in the full world
+                        match run_tree_appear(&disk, &sc, &[], 0) {
+                            Ok(count) if count.line_events > 0 => {
+                                let k = 1 + r.below(count.line_events);
+                                let mut f = sc.clone();
+                                f.appear = Some((files.clone(), k));
+                                match run_tree_appear(&disk, &f, &files, k) {
+                                    Ok(a) => {
+                                        cx.stats.runs += 1;
+                                        cx.stats.steps += a.run.state.steps;
+                                        cx.stats.fired("world-change");
+                                        cx.stats.runs_with_fired_fault += 1;
+                                        let names: BTreeSet<&str> = files.iter().map(|f| basename(f)).collect();
+                                        let looked_before = a.change_pos.map(|p| a.run.state.trace[..p.min(a.run.state.trace.len())].iter().any(|e| matches!(e.call, Call::Stat | Call::Open) && names.contains(basename(&e.path)))).unwrap_or(true);
+                                        cx.stats.probe("files_appeared_in_an_includepath_directory_before_anything_looked_for_them", a.change_pos.is_some() && !looked_before);
+                                        cx.stats.probe("files_appeared_after_the_includepath_directive_and_before_the_include", a.change_pos.is_some() && !looked_before && a.change_pos.unwrap_or(0) > 0 && a.run.outcome == base.tree.outcome && !base.tree.outcome.fails());
+                                        digest ^= fnv(a.run.outcome.short().replace(&rs, "$R").as_bytes());
+                                        if let Some(v) = judge_appear(&f, &files, &a, &base.tree.outcome, seed) {
+                                            cx.found += 1;
+                                            (cx.emit)(v);
+                                        }
+                                    }
+                                    Err(e) => cx.stats.harness_errors.push(e),
+                                }
+                            }
+                            Ok(_) => {}
+                            Err(e) => cx.stats.harness_errors.push(e),
+                        }
+                        if let Err(e) = disk.materialise(&sc) {
+                            cx.stats.harness_errors.push(e);
+                            break;
+                        }
+                    }
+                }
+            }
             "enum" | "pair" if !evs.is_empty() => {
                 let mut f = sc.clone();
                 for _ in 0..(if sc.config == "pair" { 2 } else { 1 }) {
@@ -1599,13 +1735,26 @@ pub fn replay(scv: &Value) -> Result<Option<Violation>, String> {
     let disk = Disk::new("inctree-w99")?;
     let mut stats = Stats::default();
     let mut got: Vec<Violation> = vec![];
+    let mut got_appear: Option<Violation> = None;
     {
         let mut emit = |v: Violation| got.push(v);
         let mut cx = Ctx { disk: &disk, stats: &mut stats, emit: &mut emit, found: 0 };
         if !sc.then_write.is_empty() || !sc.then_remove.is_empty() {
             run_twice(&mut cx, &sc, 0);
         }
-        let base = if cx.found == 0 { run_world(&mut cx, &sc, 0, true) } else { None };
+        if let Some((files, k)) = sc.appear.clone() {
+            let mut plain = sc.clone();
+            plain.appear = None;
+            if let Some(base) = run_world(&mut cx, &plain, 0, false) {
+                if base.flat.ambiguous.is_empty() {
+                    let a = run_tree_appear(&disk, &sc, &files, k)?;
+                    if let Some(v) = judge_appear(&sc, &files, &a, &base.tree.outcome, 0) {
+                        got_appear = Some(v);
+                    }
+                }
+            }
+        }
+        let base = if cx.found == 0 && sc.appear.is_none() { run_world(&mut cx, &sc, 0, true) } else { None };
         let faulted = !sc.rules.is_empty() || sc.read_cap > 0 || sc.nonutf8.is_some();
         if let (Some(base), true) = (base, faulted) {
             disk.materialise(&sc)?;
@@ -1615,6 +1764,9 @@ pub fn replay(scv: &Value) -> Result<Option<Violation>, String> {
     let _ = std::env::set_current_dir("/");
     if let Some(e) = stats.harness_errors.first() {
         return Err(e.clone());
+    }
+    if got_appear.is_some() {
+        return Ok(got_appear);
     }
     Ok(got.into_iter().next())
 }
